@@ -19,6 +19,16 @@ def scramble_eids(rng, t, in_meta=False):
     return [tag, a, [k if isinstance(k, str) else scramble_eids(rng, k, in_meta or tag == 'meta') for k in kids]]
 
 
+def near_miss(rng, t, in_meta=False):
+    """the correct ids, slightly off: padded with white space, case changed, a character added or dropped"""
+    tag, attrs, kids = t
+    a = dict(attrs)
+    if tag != 'meta' and not in_meta and tag not in eidlib.EXEMPT and tag not in eidlib.PASS and a.get('eId') and rng.random() < 0.5:
+        e = a['eId']
+        a['eId'] = rng.choice([e + ' ', ' ' + e, e + '\n', '\t' + e + ' ', e.upper(), e + '_', e[:-1], e + '_2'])
+    return [tag, a, [k if isinstance(k, str) else near_miss(rng, k, in_meta or tag == 'meta') for k in kids]]
+
+
 def old_new_pairs(before, after):
     """(old eId, new eId) for identifiable elements outside meta, in document order"""
     out = []
@@ -48,6 +58,15 @@ def rewrite_violation(rng, tree, prefix):
     r3 = eidlib.real_rewrite(scramble_eids(rng, tree), prefix)
     if r3.get('tree') != out:
         return 'result depends on the eIds that were there before (scrambled eIds give a different result)'
+    nm = near_miss(rng, out)
+    r5 = eidlib.real_rewrite(nm, prefix)
+    if r5.get('tree') != out:
+        return 'result depends on the eIds that were there before (the correct ids padded with white space / slightly altered are not all restored)'
+    m5 = dict((k, v) for k, v in r5.get('mapping', []))
+    olds = [o for o, _ in old_new_pairs(nm, out) if o]
+    for o, n in old_new_pairs(nm, out):
+        if o and o != n and olds.count(o) == 1 and m5.get(o) != n:
+            return f'mapping does not send the previously unique id {o!r} to {n!r}: {m5.get(o)!r}'
     # idempotent
     r4 = eidlib.real_rewrite(out, prefix)
     if r4.get('tree') != out:
